@@ -135,19 +135,48 @@ func cliVariants(bin []byte) []cliVariant {
 		v = append(v, cliVariant{name: "four CRs inside the last body line", text: mod(func(l []string) []string { l[last] = l[last][:4] + "\r\r\r\r" + l[last][4:]; return l })})
 	}
 	for i := range v {
-		dec, err := refage.Dearmor(v[i].text)
-		an := analyse(v[i].text)
-		v[i].reason = reasonOr(an.reason, "valid")
-		switch {
-		case err == nil && bytes.Equal(dec, bin) && an.beginOff == 0:
-			v[i].expect = "accept"
-		case err == nil && bytes.Equal(dec, bin):
-			v[i].expect = "either"
-		case err == nil:
-			panic("c08: a cli variant decodes to other bytes: " + v[i].name)
-		default:
-			v[i].expect = "reject"
-		}
+		v[i].expect, v[i].reason = cliExpect(v[i].text, bin)
+	}
+	return v
+}
+
+// cliExpect classifies a text for the command line routes with the acceptance
+// model: "accept" (the tool must work), "reject" (the tool must fail), "either"
+// (the model accepts, possibly only under the generous reading of non-ASCII
+// white space, but the text does not start with the BEGIN line, which the
+// tool's format sniffing may or may not look past).
+func cliExpect(text, bin []byte) (expect, reason string) {
+	uni := hasUnicodeWS(text)
+	m := text
+	if uni {
+		m = foldWS(text)
+	}
+	dec, err := refage.Dearmor(m)
+	an := analyse(m)
+	reason = reasonOr(an.reason, "valid")
+	switch {
+	case err != nil && an.grey():
+		return "either", "over-ws-limit"
+	case err != nil:
+		return "reject", reason
+	case !bytes.Equal(dec, bin):
+		panic("c08: a cli text decodes to other bytes")
+	case an.beginOff == 0 && !uni:
+		return "accept", reason
+	}
+	return "either", reason
+}
+
+// cliPrefixVariants: foreign leading data made of bytes that a lenient sniffing
+// step could take for white space, in front of the BEGIN line of canonical
+// armor of bin (and the tolerated white space as controls).
+func cliPrefixVariants(bin []byte) []cliVariant {
+	canon := refage.Armor(bin, "\n")
+	var v []cliVariant
+	for _, p := range leadingPrefixes() {
+		t := append(append([]byte{}, p.bytes...), canon...)
+		e, why := cliExpect(t, bin)
+		v = append(v, cliVariant{name: "prefix " + p.name, text: t, expect: e, reason: why})
 	}
 	return v
 }
@@ -156,16 +185,18 @@ type cliRoute struct {
 	name     string
 	identity bool // the text is the identity file (else the INPUT)
 	stdin    bool // the text arrives on standard input (else as a path)
+	file     bool // standard input is a file (else a pipe)
 	encrypt  bool // -e -i (else -d)
 }
 
 var cliRoutes = []cliRoute{
-	{"INPUT as a path (-d)", false, false, false},
-	{"INPUT on stdin (-d)", false, true, false},
-	{"-i FILE, armored encrypted identity file (-d)", true, false, false},
-	{"-i FILE, armored encrypted identity file (-e -i)", true, false, true},
-	{"-i -, armored encrypted identity file on stdin (-d)", true, true, false},
-	{"-i -, armored encrypted identity file on stdin (-e -i)", true, true, true},
+	{name: "INPUT as a path (-d)"},
+	{name: "INPUT on stdin (-d)", stdin: true},
+	{name: "INPUT on stdin from a file (-d)", stdin: true, file: true},
+	{name: "-i FILE, armored encrypted identity file (-d)", identity: true},
+	{name: "-i FILE, armored encrypted identity file (-e -i)", identity: true, encrypt: true},
+	{name: "-i -, armored encrypted identity file on stdin (-d)", identity: true, stdin: true},
+	{name: "-i -, armored encrypted identity file on stdin (-e -i)", identity: true, stdin: true, encrypt: true},
 }
 
 const cliPass = "c08 route passphrase"
@@ -224,7 +255,14 @@ func runCLI(r *mon.Run, c *checker) {
 		if rt.identity {
 			bin = idBin
 		}
-		for _, v := range cliVariants(bin) {
+		vs := cliVariants(bin)
+		if rt.file {
+			vs = vs[:10] // the pipe route has the full sample; a file on stdin gets the controls, a few others and all prefixes
+		}
+		if !rt.identity {
+			vs = append(vs, cliPrefixVariants(bin)...)
+		}
+		for _, v := range vs {
 			jobs = append(jobs, job{rt, v})
 		}
 	}
@@ -243,9 +281,13 @@ func runCLI(r *mon.Run, c *checker) {
 		case !j.rt.identity:
 			w("x1.key", []byte(x.SecretStr+"\n"))
 			argv = []string{ageBin, "-d", "-i", "x1.key"}
-			if j.rt.stdin {
+			switch {
+			case j.rt.stdin && j.rt.file:
+				w("input.age", j.v.text)
+				cmd.StdinFile = filepath.Join(d, "input.age")
+			case j.rt.stdin:
 				cmd.Stdin = j.v.text
-			} else {
+			default:
 				w("input.age", j.v.text)
 				argv = append(argv, "input.age")
 			}
@@ -319,7 +361,7 @@ func runCLI(r *mon.Run, c *checker) {
 				}
 				tab("cli_routes", j.rt.name+": valid text worked")
 			case "either":
-				tab("cli_routes", j.rt.name+": leading white space: "+outcome)
+				tab("cli_routes", j.rt.name+": (generously read) white space before BEGIN: "+outcome)
 			default:
 				if res.Exit == 0 || delivered {
 					what := fmt.Sprintf("%s: the model rejects the text (%s) but the tool exited %d", origin, j.v.reason, res.Exit)
@@ -343,7 +385,7 @@ func runCLI(r *mon.Run, c *checker) {
 	})
 	c.merge(st)
 	r.Set("cli_routes", len(cliRoutes))
-	r.Set("cli_texts_per_route", len(jobs)/len(cliRoutes))
+	r.Set("cli_texts", len(jobs))
 }
 
 func truncBytes(b []byte, n int) []byte {
